@@ -119,10 +119,10 @@ def generate(rng, tier):
     limit, samples = (720, 30) if quick else (5040, 200)
     cases = []
     for i, p in enumerate(c08.eager_programs(quick, op="mutation")):
-        if i % (3 if quick else 1) == 0:
+        if i % (3 if quick else 2) == 0:
             p["layout"] = LAYOUT_CYCLE[i % 4]
             cases.extend(c08._cases_for(p, limit, samples, rng.randrange(1 << 30), configs=("poole", "poolh")))
-    n_mut, n_q = (30, 6) if quick else (240, 30)
+    n_mut, n_q = (30, 6) if quick else (110, 20)
     for j in range(n_mut + n_q):
         op = "mutation" if j < n_mut else "query"
         ntop = 1 + j % 4
